@@ -154,7 +154,9 @@ def main() -> int:
             sp["__hashseed__"] = (i + seed) % n_hash
         timeout_s = getattr(mod, "SHARD_TIMEOUT", {"quick": 240, "thorough": 3000})[args.tier]
         known_all = load_known(pid)
-        if known_all and hasattr(mod, "witnesses"):
+        if hasattr(mod, "witnesses"):
+            # stored witnesses of known findings (KNOWN-FINDING line printed deterministically) and of findings repaired since
+            # (regression scenarios: they must stay silent)
             specs.append({"__witnesses__": True, "findings": known_all, "seed": seed})
     results, problems = run_specs(pid, specs, args.jobs, timeout_s)
     inconclusive.extend(problems)
